@@ -47,9 +47,12 @@ class Outcome:
         self.events = 0
         self.lines = 0
         self.fired_at = ''
+        self.event_names = []
 
     def summary(self):
-        return dict(self.__dict__)
+        d = dict(self.__dict__)
+        d.pop('event_names', None)
+        return d
 
 
 def dry_run(case: dict) -> tuple[int, int]:
@@ -57,6 +60,11 @@ def dry_run(case: dict) -> tuple[int, int]:
     c = {**case, 'inject': {'kind': 'none'}, 'backend': 'serial'}
     out = run_case(c, count=True)
     return out.events, out.lines
+
+
+def event_names(case: dict) -> list[str]:
+    c = {**case, 'inject': {'kind': 'none'}, 'backend': 'serial'}
+    return run_case(c, count=True).event_names
 
 
 def run_case(case: dict, count: bool = False) -> Outcome:
@@ -101,6 +109,7 @@ def run_case(case: dict, count: bool = False) -> Outcome:
         if os.path.exists(evlog):
             txt = open(evlog).read().splitlines()
             out.events = sum(1 for ln in txt if not ln.startswith('FAULT'))
+            out.event_names = [ln.split(' ', 1)[1].split(':')[0] for ln in txt if not ln.startswith('FAULT')]
             fired = [ln for ln in txt if ln.startswith('FAULT')]
             if fired:
                 out.reached = True
@@ -197,4 +206,119 @@ def judge(prop: str, case: dict, out: Outcome, expect_reported: str) -> list[cor
             findings.append(core.Finding(f'{prop}:{phase}:not-is_cached-but-listed-by-cached_tasks', f'disk={out.disk}'))
     else:
         findings.append(core.Finding(f'{prop}:{phase}:is_cached-{out.is_cached}', ''))
+    return findings
+
+
+# ---------------------------------------------------------------------------------------------------
+# C13: classification of what a kill left on disk, independent of labtech's own loading code
+# ---------------------------------------------------------------------------------------------------
+
+_REF_CACHE: dict = {}
+
+
+def reference_entries(case: dict) -> dict:
+    """Bytes of a complete entry for this case ('new' and, for overwrite, 'old'), produced by fault-free saves elsewhere."""
+    key = core.case_hash([case['type'], case['shape'], case['storage']])
+    if key in _REF_CACHE:
+        return _REF_CACHE[key]
+    refs = {}
+    for gen in ('new', 'old'):
+        d = tempfile.mkdtemp(prefix='sfref-', dir=os.environ.get('VERIF_SCRATCH'))
+        try:
+            inner = inner_storage(case['storage'], os.path.join(d, 'store'))
+            task = make_task(case)
+            lab = labtech.Lab(storage=inner, runner_backend='serial', context={'gen': gen}, notebook=False)
+            lab.run_tasks([task], disable_progress=True, disable_top=True)
+            kd = os.path.join(d, 'store', task.cache_key)
+            refs[gen] = {fn: open(os.path.join(kd, fn), 'rb').read() for fn in os.listdir(kd)}
+        finally:
+            shutil.rmtree(d, ignore_errors=True)
+    _REF_CACHE[key] = refs
+    return refs
+
+
+def _meta_equal(a: bytes, b: bytes) -> bool:
+    try:
+        ja, jb = json.loads(a), json.loads(b)
+    except Exception:
+        return False
+    for j in (ja, jb):
+        j.pop('start_timestamp', None)
+        j.pop('duration_seconds', None)
+    return ja == jb
+
+
+def classify_disk(case: dict, store: str) -> str:
+    """'absent' | 'complete:new' | 'complete:old' | 'complete:mixed' | 'empty-keydir' | 'metadata-incomplete' | 'data-incomplete'"""
+    task = make_task(case)
+    kd = os.path.join(store, task.cache_key)
+    if not os.path.isdir(kd):
+        return 'absent'
+    refs = reference_entries(case)
+    files = {fn: open(os.path.join(kd, fn), 'rb').read() for fn in os.listdir(kd)}
+    if not files:
+        return 'empty-keydir'
+    if 'metadata.json' not in files or not any(_meta_equal(files['metadata.json'], refs[g]['metadata.json']) for g in ('new', 'old')):
+        return 'metadata-incomplete'
+    gens = set()
+    for fn, ref_new in refs['new'].items():
+        if fn == 'metadata.json':
+            continue
+        if fn not in files:
+            return 'data-incomplete'
+        if files[fn] == ref_new:
+            gens.add('new')
+        elif files[fn] == refs['old'][fn]:
+            gens.add('old')
+        else:
+            return 'data-incomplete'
+    if gens == {'new'}:
+        return 'complete:new'
+    if gens == {'old'}:
+        return 'complete:old'
+    return 'complete:mixed'
+
+
+def run_kill_case(case: dict) -> tuple[Outcome, str]:
+    """Like run_case, but also classifies the on-disk entry before labtech looks at it."""
+    state = {}
+    orig = post_state
+
+    def wrapped(case_, inner, store, obs, out):
+        state['disk_class'] = classify_disk(case_, store)
+        orig(case_, inner, store, obs, out)
+    globals()['post_state'] = wrapped
+    try:
+        out = run_case(case)
+    finally:
+        globals()['post_state'] = orig
+    return out, state.get('disk_class', 'unknown')
+
+
+def judge_kill(case: dict, out: Outcome, disk_class: str) -> list[core.Finding]:
+    findings = []
+    phase = 'overwrite' if case.get('overwrite') else 'first-save'
+    if not out.reached:
+        return findings
+    if out.reported != 'failed':
+        findings.append(core.Finding(f'C13:{phase}:worker-killed-but-task-reported-{out.reported}', out.fired_at))
+    unusable = None
+    if out.cached_tasks_error:
+        unusable = f'cached_tasks raises ({out.cached_tasks_error})'
+    if out.is_cached is True:
+        if out.load.startswith('failed') or out.load == 'executed':
+            unusable = f'load {out.load}'
+        elif out.load == 'loaded:wrong':
+            findings.append(core.Finding(f'C13:{phase}:reported-cached-but-loads-a-wrong-value', f'disk={disk_class} {out.disk}; kill={out.fired_at}'))
+        elif out.in_cached_tasks is not None and out.in_cached_tasks != 1 and not out.cached_tasks_error:
+            unusable = f'cached_tasks lists it {out.in_cached_tasks} times'
+    elif out.is_cached is False and out.in_cached_tasks:
+        findings.append(core.Finding(f'C13:{phase}:not-is_cached-but-listed-by-cached_tasks', f'disk={disk_class}'))
+    if unusable:
+        if disk_class in ('empty-keydir', 'metadata-incomplete', 'data-incomplete'):
+            # the kill window the code has no protection for (no commit marker, no atomic rename): identified by what is on disk
+            findings.append(core.Finding(f'C13:{phase}:killed-mid-save:{disk_class}:entry-reported-cached-but-unusable',
+                                         f'{unusable}; disk={out.disk}; kill={out.fired_at}'))
+        else:
+            findings.append(core.Finding(f'C13:{phase}:entry-{disk_class}-on-disk-but-unusable', f'{unusable}; disk={out.disk}; kill={out.fired_at}'))
     return findings
